@@ -63,6 +63,37 @@ def build(rng, n):
     return "".join(lines_out), items
 
 
+MEMBERS = [
+    ("int m%d;", "on_class_field"), ("void f%d();", "on_class_method"), ("operator T%d() const;", "on_class_method"),
+    ("explicit operator P%d*();", "on_class_method"), ("K%d();", "on_class_method"), ("~K%d();", "on_class_method"),
+    ("using U%d = int;", "on_using_alias"), ("typedef int t%d;", "on_typedef"), ("enum E%d { k%d };", "on_enum"),
+    ("friend class G%d;", "on_class_friend"), ("template <typename Q> void tm%d(Q q);", "on_class_method"),
+    ("bool operator==(const O%d& o) const;", "on_class_method"), ("int b%d : 2;", "on_class_field"), ("struct I%d;", "on_forward_decl"),
+    ("using B::z%d;", "on_using_declaration"), ("int g%d() { return 1; }", "on_class_method"), ("static int s%d;", "on_class_field"),
+    ("virtual operator V%d&() = 0;", "on_class_method"), ("template <typename Q> operator W%d<Q>();", "on_class_method"),
+]
+MEMBER_FILLER = ["", "", "\n", "// c\n", "/* a\n b */\n", "\n\n", "public:\n", "private:\n", "/* one */\n"]
+
+
+def build_class(rng, n, tag):
+    """a class whose members each stand on a line of their own; returns text and [(callback, name fragment, line, src)]"""
+    out = ["int before%d;\n" % tag, rng.choice(["", "\n", "// x\n"]), rng.choice(["struct", "class"]) + " K%d : B {\n" % tag, "public:\n"]
+    cur = 1 + sum(x.count("\n") for x in out)
+    items = []
+    for i in range(n):
+        fill = rng.choice(MEMBER_FILLER)
+        out.append(fill)
+        cur += fill.count("\n")
+        tmpl, cb = rng.choice(MEMBERS)
+        num = tag if tmpl.startswith(("K%d", "~K%d")) else tag * 100 + i
+        src = tmpl % tuple([num] * tmpl.count("%d"))
+        items.append((cb, str(num), cur, src))
+        out.append("  " + src + "\n")
+        cur += 1
+    out.append("};\n")
+    return "".join(out), items
+
+
 def locs_of(text, filename="f.h"):
     r = impl.impl_parse(text, filename)
     return r, [(e["cb"], e["loc"], e) for e in r["events"]]
@@ -100,6 +131,28 @@ def run(ctx):
                 if l[0] != "f.h" or not (first <= l[1] <= last):
                     fails.append({"input": text, "diff": "%s for %r reported at %s:%s, written on lines %d-%d" % (cb, src, l[0], l[1], first, last)})
     ctx.oracle("known_lines", n, fails)
+    # class members, each on a line of its own: the callback of every member kind names that line
+    mfails = []
+    nm = ctx.budget(150, 6000)
+    for j in range(nm):
+        text, items = build_class(rng, rng.randint(2, 8), j + 1)
+        ctx.count(text, nontrivial=True)
+        r, locs = locs_of(text)
+        if r["result"]["k"] != "ok":
+            mfails.append({"input": text, "diff": "generated class rejected: %s" % r["result"].get("msg")})
+            continue
+        if j < ctx.budget(60, 1500):
+            corr_texts.append(text)
+        for cb, frag, line, src in items:
+            hits = [(c, l) for c, l, e in locs if c == cb and (name_in(e, frag) or src.startswith(("K", "~K")))]
+            if src.startswith(("K", "~K")):
+                hits = [(c, l) for c, l, e in locs if c == cb and e["payload"].get("constructor" if src.startswith("K") else "destructor")]
+            if not hits:
+                mfails.append({"input": text, "diff": "no %s callback for member %r" % (cb, src)})
+                continue
+            if not any(l[0] == "f.h" and l[1] == line for c, l in hits):
+                mfails.append({"input": text, "diff": "%s for member %r reported at %s, written on line %d" % (cb, src, sorted(set(l[1] for c, l in hits)), line)})
+    ctx.oracle("member_lines", nm, mfails)
     # prepend k lines: every location shifts by exactly k
     pfails = []
     for _ in range(ctx.budget(60, 2000)):
